@@ -269,6 +269,29 @@ class Node:
             raise Inconclusive(f"meta {line!r} -> {kind} {body[:200]!r}")
         return json.loads(body)
 
+    def bg(self, ident, line, client=1):
+        """Start a command in the background (it may park at an armed read-path point)."""
+        self.op_counter += 1
+        rec = {"op": self.op_counter, "lt": self.lifetime, "client": client, "cmd": line, "t_call": time.monotonic(),
+               "t_ret": None, "kind": None, "bg": ident}
+        self.history.append(rec)
+        self._bg = getattr(self, "_bg", {})
+        self._bg[str(ident)] = rec
+        r = self.meta(f"bg {ident} {line}")
+        if not r.get("ok"):
+            raise Inconclusive(f"bg failed: {r}")
+
+    def wait(self, ident, timeout_ms=15000):
+        self._send(f"@wait {ident} {timeout_ms}")
+        kind, body = self._read_frame(timeout_ms / 1000.0 + 10)
+        rec = getattr(self, "_bg", {}).get(str(ident))
+        if rec is not None:
+            rec["t_ret"] = time.monotonic()
+            rec["kind"] = kind
+        if kind == "err":
+            raise Inconclusive(f"background command {ident} did not finish: {body[:100]!r}")
+        return Reply(kind, body)
+
     def sync(self):
         r = self.meta("sync")
         if not r.get("ok"):
